@@ -243,9 +243,10 @@ Proof.
       rewrite tree_rec by exact Eb.
       change (lincomb_fuel 1 idc Fallback ?e s) with (exec_list (lincomb_fuel 0 idc Fallback) Fallback e alias_tree s).
       pose proof (tree_no_rec (lincomb_fuel 0 idc Fallback) Fallback (a + b) (of_Z 0) i1 i1 io s) as P.
-      destruct (exec_list _ Fallback _ alias_tree s) as [s' | |]; cbn [bind post] in *.
+      destruct (exec_list _ Fallback _ alias_tree s) as [s' | | |]; cbn [bind post] in *.
       * rewrite vlin_merge in P. apply P; try assumption; [congruence |].
         intros [_ Hz]. apply Hz. apply nf_of0.
+      * apply P; try assumption; [congruence | intros [_ Hz]; apply Hz; apply nf_of0].
       * apply P; try assumption; [congruence | intros [_ Hz]; apply Hz; apply nf_of0].
       * apply P; try assumption; [congruence | intros [_ Hz]; apply Hz; apply nf_of0].
     + change (post idc a i1 b i2 io s (exec_list (lincomb_fuel 1 idc Fallback) Fallback
@@ -262,9 +263,10 @@ Proof.
       rewrite tree_rec by exact Eb.
       change (lincomb_fuel 1 idc Blas ?e s) with (exec_list (lincomb_fuel 0 idc Blas) Blas e alias_tree s).
       pose proof (tree_no_rec (lincomb_fuel 0 idc Blas) Blas (a + b) (of_Z 0) i1 i1 io s) as P.
-      destruct (exec_list _ Blas _ alias_tree s) as [s' | |]; cbn [bind post] in *.
+      destruct (exec_list _ Blas _ alias_tree s) as [s' | | |]; cbn [bind post] in *.
       * rewrite vlin_merge in P. apply P; try assumption; [congruence |].
         intros [_ Hz]. apply Hz. apply nf_of0.
+      * apply P; try assumption; [congruence | intros [_ Hz]; apply Hz; apply nf_of0].
       * apply P; try assumption; [congruence | intros [_ Hz]; apply Hz; apply nf_of0].
       * apply P; try assumption; [congruence | intros [_ Hz]; apply Hz; apply nf_of0].
     + change (post idc a i1 b i2 io s (exec_list (lincomb_fuel 1 idc Blas) Blas
@@ -278,7 +280,7 @@ End Field.
 Lemma post_ok {T} `{Num T} cast a i1 b i2 io (s : store T) o :
   post cast a i1 b i2 io s o ->
   exists s', o = Ok s' /\ s' io = map cast (vlin a (s i1) b (s i2)) /\ forall j, j <> io -> s' j = s j.
-Proof. destruct o as [s' | |]; cbn; [eauto | tauto | tauto]. Qed.
+Proof. destruct o as [s' | | |]; cbn; [eauto | tauto | tauto | tauto]. Qed.
 
 Lemma lincomb_impl_correct {T} {N : Num T} {F : NumField T}
       (fl bo : bool) (a b : T) (i1 i2 io : nat) (s : store T) :
